@@ -29,6 +29,12 @@ open Atomman Atomman.C09 Atomman.Gen
     tableok                    → 0/1
     nunits / uname i           → count / cp,cp,…          names of the generated unit table
     halfnames                  → cp,… cp,… …              names outside the table (half-integral dimension)
+  Size guard (driver only, not part of the proved model): every numeric request is first evaluated over `gvAlg`,
+  a copy of `numAlg` in which a value whose numerator/denominator would exceed ~2·10^5 bits, a power with an
+  exponent beyond 4096 or a literal with a decimal exponent beyond 5000 is replaced by the token `big` (propagated by
+  every operation; dividing by a zero *value* still fails).  `big` as result → reply `err:size` (the harness does not compare such cases);
+  no value → `err:value`; a value → no `big` occurred anywhere, and the request is evaluated by the proved `numAlg`,
+  whose answer is the reply.
     rparse lvl W tree…         → string | parse | evalAst  the MODEL's `render W lvl tree` (W: `-` or cp,cp,… blanks),
                                                           its `parse` and the tree's `evalAst` under the state scalings
                                                           (tree in prefix form: N cp,… | L cp,… | M a b | D a b | P a b)
@@ -74,6 +80,44 @@ def tree? : Nat → List String → Option (Expr × List String)
 
 def rAlg : Alg Rat := numAlg ratToInt?
 
+/-- guarded values: a rational of moderate size, or "too big to write down". -/
+inductive GV where
+  | val (q : Rat)
+  | big
+
+def qsize (q : Rat) : Nat := q.num.natAbs.log2 + q.den.log2
+
+def gval (q : Rat) : GV := if qsize q > 200000 then .big else .val q
+
+def gvAlg : Alg GV where
+  mul a b :=
+    match a, b with
+    | .val x, .val y => some (gval (x * y))
+    | _, _ => some .big
+  div a b :=
+    match a, b with
+    | .val x, .val y => if y = 0 then none else some (gval (x / y))
+    | .big, .val y => if y = 0 then none else some .big
+    | _, .big => some .big
+  pow a b :=
+    match b with
+    | .big => some .big
+    | .val y =>
+      match ratToInt? y with
+      | none => none
+      | some n =>
+        match a with
+        | .big => some .big
+        | .val x =>
+          if x = 0 ∧ n < 0 then none
+          else if n.natAbs > 4096 ∨ (qsize x + 1) * n.natAbs > 200000 then some .big
+          else some (gval (powInt x n))
+  num m e := if e.natAbs > 5000 then some .big else some (gval (litVal m e))
+
+def isBig : Option GV → Bool
+  | some .big => true
+  | _ => false
+
 def showO (o : Option Rat) : String :=
   match o with
   | some v => showRat v
@@ -92,8 +136,16 @@ def splitCount (toks : List String) : Option (List Rat × List Char) :=
     | none => none
   | [] => none
 
+/-- guard pre-pass, then the proved algebra. -/
+def guarded (pre : Option GV) (run : Unit → String) : String :=
+  match pre with
+  | some .big => err "size"
+  | none => err "value"
+  | some (.val _) => run ()
+
 def step (sc : Scales Rat) (toks : List String) : Scales Rat × String :=
   let env := envOf unitTable sc
+  let envG : List Char → Option GV := fun n => (env n).map GV.val
   match toks with
   | "scales" :: rest =>
     match parseRats? rest with
@@ -101,11 +153,11 @@ def step (sc : Scales Rat) (toks : List String) : Scales Rat × String :=
     | _ => (sc, err "format")
   | "parse" :: rest =>
     match chars? rest with
-    | some cs => (sc, showO (parse rAlg env cs))
+    | some cs => (sc, guarded (parse gvAlg envG cs) fun _ => showO (parse rAlg env cs))
     | none => (sc, err "format")
   | "parseu" :: rest =>
     match chars? rest with
-    | some cs => (sc, showO (parseUnits rAlg env (some cs)))
+    | some cs => (sc, guarded (parseUnits gvAlg envG (some cs)) fun _ => showO (parseUnits rAlg env (some cs)))
     | none => (sc, err "format")
   | ["parsenone"] => (sc, showO (parseUnits rAlg env none))
   | "track" :: rest =>
@@ -129,20 +181,26 @@ def step (sc : Scales Rat) (toks : List String) : Scales Rat × String :=
   | "set" :: rest =>
     match splitCount rest with
     | some (xs, cs) =>
-      match parseUnits rAlg env (some cs) with
-      | some f => (sc, showRats (setInUnits xs f))
-      | none => (sc, err "value")
+      (sc, guarded (parseUnits gvAlg envG (some cs)) fun _ =>
+        match parseUnits rAlg env (some cs) with
+        | some f => showRats (setInUnits xs f)
+        | none => err "value")
     | none => (sc, err "format")
   | "get" :: rest =>
     match splitCount rest with
     | some (xs, cs) =>
-      match parseUnits rAlg env (some cs) with
-      | some f => if f = 0 then (sc, err "value") else (sc, showRats (getInUnits xs f))
-      | none => (sc, err "value")
+      (sc, guarded (parseUnits gvAlg envG (some cs)) fun _ =>
+        match parseUnits rAlg env (some cs) with
+        | some f => if f = 0 then err "value" else showRats (getInUnits xs f)
+        | none => err "value")
     | none => (sc, err "format")
   | "setlit" :: rest =>
     match chars? rest with
-    | some cs => (sc, showO (setLiteral rAlg env cs))
+    | some cs =>
+      if (splitPoints cs).any fun j =>
+          let unit := strip (cs.drop j)
+          isBig (parseUnits gvAlg envG (if unit.isEmpty then none else some unit)) then (sc, err "size")
+      else (sc, showO (setLiteral rAlg env cs))
     | none => (sc, err "format")
   | "radicand" :: rest =>
     match choice? rest with
@@ -188,7 +246,8 @@ def step (sc : Scales Rat) (toks : List String) : Scales Rat × String :=
     match lvl.toNat?, optName? w, tree? (rest.length + 1) rest with
     | some lvl, some w, some (e, []) =>
       let str := render (w.getD []) lvl e
-      (sc, showName str ++ " | " ++ showO (parse rAlg env str) ++ " | " ++ showO (evalAst rAlg env e))
+      if isBig (parse gvAlg envG str) then (sc, err "size")
+      else (sc, showName str ++ " | " ++ showO (parse rAlg env str) ++ " | " ++ showO (evalAst rAlg env e))
     | _, _, _ => (sc, err "format")
   | ["halfnames"] => (sc, " ".intercalate (halfIntegralNames.map showName))
   | _ => (sc, err "op")
